@@ -185,14 +185,19 @@ def handle (line : Json) : Json :=
     let mtrace := mtraceRev.reverse
     let constsOk := !K.persistent.isEmpty && K.persistent != K.transient
     let ended := (stepsJ.getLast?.bind (fun j => bool? j "crash" <|> bool? j "corrupt")).isSome
-    let specImpl := constsOk && bad.isNone && !ended && opsJ.length == stepsJ.length && specTrace K cfg users watch init trace
+    -- an answer handed out earlier changed although no operation was given that object to change
+    let aliased := stepsJ.findIdx? (fun j => !(arrD j "mutated").isEmpty)
+    let specImpl := constsOk && bad.isNone && !ended && aliased.isNone && opsJ.length == stepsJ.length && specTrace K cfg users watch init trace
     let sameTrace := mtrace.length == trace.length &&
       (mtrace.zip trace).all fun (a, b) => (a.2.1 == b.2.1 || (match a.2.1, b.2.1 with | .refused _, .refused _ => true | _, _ => false)) && (deltaOf a.2.2.db b.2.2.db).isEmpty && watch.map (cnt a.2.2.sdb) == watch.map (cnt b.2.2.sdb)
     let specModel := if sameTrace && bad.isNone && opsJ.length == stepsJ.length then specImpl
       else constsOk && specTrace K cfg users watch init mtrace
     -- first step at which the implementation's trace fails, for the replay file
     let why : Option String :=
-      if specImpl then none else
+      if specImpl then none
+      else if let some i := aliased then
+        some s!"step {i}: an identifier object handed out earlier was changed behind the caller's back (aliasing): {Json.compress (jarr (arrD (stepsJ.getD i Json.null) "mutated"))}"
+      else
         let rec find (P : State) (i : Nat) : List (Op × Res × State) → String
           | [] => if opsJ.length != stepsJ.length || (stepsJ.getLast?.bind (fun j => bool? j "crash" <|> bool? j "corrupt")).isSome
               then s!"the implementation's history ended at step {stepsJ.length - 1}: the call broke down or left a non-string key/value in the store"
